@@ -783,6 +783,7 @@ class IRSpec:
             if dom[0] == 'ref':
                 return se.exit(s, 'TypeError')
             shape = {'set': 'set', 'list': 'list', 'pinsview': 'opins', 'odict_values': 'opins', 'odict_items': 'opins', 'range': 'range', 'zip': 'zip', 'pdict': 'keys'}.get(dom[0])
+            if spec.shape == 'plist' and shape == 'list': shape = 'plist'      # positional walk over a list: element k is at(L, k)
             if shape != spec.shape:
                 raise Unsupported('loop %d of %s iterates a %s, its invariant was written for a %s' % (ordinal, fr.fi.qual, shape, spec.shape))
             self.cut(se, s, node, spec, dom, shape, ordinal, nxt, k_ret)
@@ -973,6 +974,8 @@ class IRSpec:
             D = dom[1]                          # the key set of the dictionary parameter
         elif shape == 'range':
             n = dom[1]
+        elif shape == 'plist':
+            n = c.len(dom[1])
         elif shape == 'zip':
             a, b = dom[1], dom[2]
             if a[0] != 'list' or b[0] != 'list': raise Unsupported('zip of %s,%s' % (a[0], b[0]))
@@ -1008,6 +1011,10 @@ class IRSpec:
                     t, _ = c.L_any(name); s.env[name] = ('list', t, ('local', name))
                 elif kind == 'bool':
                     s.env[name] = B(c.fresh(name, BoolSort()))
+                elif kind == 'int':
+                    s.env[name] = I(c.fresh(name, IntSort()))
+                elif kind == 'none':
+                    s.env[name] = R(c.null)       # a local that is still None at every loop head (it is assigned only on the way out)
                 else:
                     raise Unsupported('loop local kind %s' % kind)
             # allocation only grows
@@ -1058,6 +1065,10 @@ class IRSpec:
                 ea, eb = c.at(a[1], idx), c.at(b[1], idx)
                 sb.pc += [c.cnt(a[1], ea) > 0, c.cnt(b[1], eb) > 0]
                 self.bind_target(sb, node.target, ('tuple', [R(ea), R(eb)]))
+            elif shape == 'plist':
+                el = c.at(dom[1], idx)
+                sb.pc.append(c.cnt(dom[1], el) > 0)
+                self.bind_target(sb, node.target, R(el))
             else:
                 self.bind_target(sb, node.target, I(idx))
             nseen = None; nidx = idx + 1
